@@ -21,3 +21,7 @@ Definition enc_group (inv : N) (g : list tok) : list byte :=
   N.lxor (ctrl (map is_lit g)) inv :: flat_map body1 g.
 Definition lzss_enc (mode : N) (ts : list tok) : list byte :=
   flat_map (enc_group (if mode =? 1 then 255 else 0)) (groups (length ts) ts).
+
+(* generator interface: the encoding and the meaning of a token stream, side by side *)
+Definition lzss_enc_expand (mode : N) (ts : list tok) : list byte * list byte :=
+  (lzss_enc mode ts, rev' (sout (expand {| swin := Emp; spos := start_pos mode; sout := [] |} ts))).
